@@ -13,7 +13,14 @@ import (
 func LocalStore(name string) M {
 	return M{kind: flow.SStore, index: -1, desc: "assignment to local " + name}.Where("", func(u *Unit, s *flow.Site) bool {
 		id, ok := ast.Unparen(s.LHS).(*ast.Ident)
-		if !ok || id.Name != name {
+		if !ok {
+			return false
+		}
+		if b := u.C.BaseName(u.Info().ObjectOf(id)); b != "" {
+			if b != name {
+				return false
+			}
+		} else if id.Name != name {
 			return false
 		}
 		v, isVar := u.Info().ObjectOf(id).(*types.Var)
